@@ -273,6 +273,47 @@ class TupleV(V):
 
 
 @dataclass(eq=False)
+class ConcImport(V):
+    """A concrete import of the module `name` (ancestor walks are unrolled on the names a, a.b, a.b.c, a.b.c.d)."""
+
+    name: str
+
+
+_NOCONC = object()
+
+
+def conc(v: V):
+    """The Python constant an abstract value stands for (strings, ints, None, tuples of them), else _NOCONC."""
+    if isinstance(v, Const):
+        return v.value
+    if isinstance(v, NoneV):
+        return None
+    if isinstance(v, TupleV):
+        items = [conc(i) for i in v.items]
+        return _NOCONC if any(i is _NOCONC for i in items) else tuple(items)
+    return _NOCONC
+
+
+def absv(x) -> V:
+    if x is None:
+        return NoneV()
+    if isinstance(x, (str, int, float, bool)):
+        return Const(x)
+    if isinstance(x, (tuple, list)):
+        return TupleV([absv(i) for i in x])
+    raise TypeError(type(x).__name__)
+
+
+def dotted_ancestors(name: str) -> list[str]:
+    parts = name.split(".")
+    return [".".join(parts[:i]) for i in range(1, len(parts))]
+
+
+CONCRETE_STR_METHODS = {"partition", "rpartition", "split", "rsplit", "join", "startswith", "endswith", "find", "rfind", "index", "rindex", "count", "strip", "rstrip", "lstrip", "removeprefix", "removesuffix", "replace", "lower", "upper", "isidentifier", "title", "casefold", "splitlines", "isdigit", "isalpha"}
+CUT_METHODS = {"partition", "rpartition", "split", "rsplit", "find", "rfind", "index", "rindex"}
+
+
+@dataclass(eq=False)
 class AltV(V):
     """One of several values, each under a condition (a strategy object / callable chosen by the options, a field assigned in
     different branches).  Operations distribute over the alternatives."""
@@ -412,6 +453,8 @@ def key(v: V) -> str:
         return v.text
     if isinstance(v, DictCompV):
         return f"{{dict@{v.node.lineno}}}.{v.mode}"
+    if isinstance(v, ConcImport):
+        return f"<import {v.name}>"
     if isinstance(v, AltV):
         return "alt(" + "|".join(key(x) for _g, x in v.alts) + ")"
     if isinstance(v, Builtin):
@@ -499,7 +542,12 @@ class _Mapped:
 
 
 class Interp:
-    def __init__(self, repo: Repo, entry: FuncInfo, flag_params: set[str], ext_params: set[str], internal_fns: set[str]) -> None:
+    CONCRETE_NAMES = ("aa", "aa.bb", "aa.bb.cc", "aa.bb.cc.dd")
+
+    def __init__(self, repo: Repo, entry: FuncInfo, flag_params: set[str], ext_params: set[str], internal_fns: set[str], concrete: bool = False) -> None:
+        self.concrete = concrete  # the imports are four concrete imports (of aa, aa.bb, aa.bb.cc, aa.bb.cc.dd) instead of a generic one
+        self.conc_imports = [ConcImport(n) for n in self.CONCRETE_NAMES]
+        self.cuts: list = []  # where a concrete name was cut (partition / split / slice ...)
         self.repo = repo
         self.entry = entry
         self.flag_params = flag_params
@@ -593,7 +641,8 @@ class Interp:
 
     # ------------------------------------------------------------------ calls
     def call_function(self, fi: FuncInfo, args: list, kwargs: dict, selfv: "V | None", closure: "dict | None", call: "ast.Call | None" = None, caller: "Frame | None" = None) -> V:
-        if len(self.stack) > MAX_CALL_DEPTH or fi.fq in self.stack:
+        concrete_rec = fi.fq in self.stack and self.stack.count(fi.fq) < 8 and len(self.stack) <= MAX_CALL_DEPTH + 8 and any(conc(a) is not _NOCONC and isinstance(conc(a), (str, tuple)) for a in [*args, *kwargs.values()])
+        if (len(self.stack) > MAX_CALL_DEPTH or fi.fq in self.stack) and not concrete_rec:
             # what a recursive call computes is not known: it may depend on anything, in particular on the external options
             self.note(f"call of {fi.qualname} not followed (recursion / depth)")
             return Unknown(f"{fi.name}(..)", self._taints(args, kwargs) | {"EXT", "FLAG", "GAP"})
@@ -744,6 +793,13 @@ class Interp:
                 new = self.set_algebra(fr, cur, val, s.op, s)
                 self.assign(fr, s.target, new, s)
                 return TRUE
+            cc, cv_ = conc(cur), conc(val)
+            if cc is not _NOCONC and cv_ is not _NOCONC and cc is not None and cv_ is not None and isinstance(s.op, (ast.Add, ast.Sub)):
+                try:
+                    self.assign(fr, s.target, absv(cc + cv_ if isinstance(s.op, ast.Add) else cc - cv_), s)
+                    return TRUE
+                except Exception:  # noqa: BLE001
+                    pass
             self.assign(fr, s.target, Unknown(f"({key(cur)} {type(s.op).__name__} {key(val)})", taint_of(cur) | taint_of(val), False), s)
             return TRUE
         if isinstance(s, ast.Return):
@@ -1255,6 +1311,10 @@ class Interp:
             w = self.ev(fr, test)
             if isinstance(w, Coll) or (isinstance(w, Unknown) and (hasattr(w, "_coll") or w.taint & {"PARSED", "CONVERTED"})):
                 work = self.as_coll(w)
+        if work is None:
+            done = self._concrete_while(fr, s)
+            if done is not None:
+                return done
         depth = len(self.loops)
         if work is not None:
             lp = Loop(f"x{depth}", work.snapshot(), s, fr.fi)
@@ -1286,6 +1346,58 @@ class Interp:
             fr.returns[i] = (rg, rv)
             exits.append(rg)
         return f_not(disj(exits)) if exits else TRUE
+
+    def _concrete_while(self, fr: Frame, s: ast.While) -> "Formula | None":
+        """A while loop whose test is decided by constants in every round (a walk up a concrete dotted name) is carried out round
+        by round; None if the test is not constant (then nothing has been executed)."""
+        if self.bf(fr, s.test) not in (TRUE, FALSE):
+            return None
+        marker = Loop(f"u{len(self.loops)}", Coll(), s, fr.fi)
+        saved = self.loops
+        self.loops = [*self.loops, marker]
+        pushed = 0
+        exhausted = True
+        cont: Formula = TRUE  # condition under which the current round is reached (no return / break so far)
+        exits: list[Formula] = []  # conditions under which control leaves the loop and goes on behind it
+        try:
+            for _round in range(12):
+                c = self.bf(fr, s.test)
+                if c == FALSE:
+                    exhausted = False
+                    exits.append(cont)
+                    break
+                if c != TRUE:
+                    self.note(f"{fr.fi.qualname}: the test of `while {norm(s.test, 40)}` stops being constant: the remaining rounds are not modelled")
+                    marker.broken = True
+                    exhausted = False
+                    exits.append(cont)
+                    break
+                before_b = len(fr.breaks)
+                ft = self.exec_block(fr, s.body)
+                brk = disj(fr.breaks[before_b:])
+                del fr.breaks[before_b:]
+                marker.broken = False  # a break in a concrete round is a path condition, not an imprecision
+                if brk != FALSE:
+                    exits.append(conj([cont, brk]))
+                go_on = conj([ft, f_not(brk)]) if brk != FALSE else ft
+                if go_on == FALSE:
+                    exhausted = False
+                    break
+                if go_on != TRUE:
+                    self.frames.append(go_on)
+                    pushed += 1
+                    cont = conj([cont, go_on])
+                if pushed > 6 or len(atoms_of(self.guard())) > 14:
+                    break  # rounds that each add an open condition: no progress towards a constant test
+            if exhausted:
+                self.note(f"{fr.fi.qualname}: `while {norm(s.test, 40)}` does not end within 12 rounds on a concrete name")
+                marker.broken = True
+                exits.append(cont)
+        finally:
+            marker.active = False
+            self.loops = saved
+            del self.frames[len(self.frames) - pushed:]
+        return disj(exits)
 
     def _iterator_loop(self, fr: Frame, s: ast.While) -> "ast.For | None":
         """`while True: try: x = next(it) except StopIteration: break; <rest>`  is  `for x in it: <rest>`."""
@@ -1322,12 +1434,16 @@ class Interp:
         return f
 
     def exists(self, g: Formula, var: str) -> Formula:
-        dep = sorted(a for a in atoms_of(g) if mentions(a, var))
+        def depends(a: str) -> bool:
+            # (an atom that is itself a closure over the ancestor variable does not depend on it any more)
+            return mentions(a, var) and not (var.startswith("anc:") and a[:1] in "∃∀")
+
+        dep = sorted(a for a in atoms_of(g) if depends(a))
         if not dep:
             return g
         if len(dep) > 1:
             g = self.simplify_under(g, self.guard())
-            dep = sorted(a for a in atoms_of(g) if mentions(a, var))
+            dep = sorted(a for a in atoms_of(g) if depends(a))
             if not dep:
                 return g
         if len(dep) == 1:
@@ -1339,7 +1455,7 @@ class Interp:
                 return subst_atom(g, a, self._closure_atom("∀", a, var))
         # general case: split off the conjuncts that do not depend on the variable
         if g[0] == "and":
-            indep = [h for h in g[1] if not any(mentions(a, var) for a in atoms_of(h))]
+            indep = [h for h in g[1] if not any(depends(a) for a in atoms_of(h))]
             depc = [h for h in g[1] if h not in indep]
             if indep:
                 return conj([*indep, self.exists(conj(depc), var)])
@@ -1479,6 +1595,8 @@ class Interp:
             for it in v.items:
                 self._add_value(c, it, TRUE, None, None)
             return c
+        if isinstance(v, Unknown) and self.concrete and "CONVERTED" in v.taint and "PARSED" not in v.taint and not hasattr(v, "_coll"):
+            v._coll = Coll([Part("lit", TRUE, items=(ci,)) for ci in self.conc_imports], label=v.text)  # type: ignore[attr-defined]
         if isinstance(v, Unknown):
             c = getattr(v, "_coll", None)
             if c is None:
@@ -1695,7 +1813,7 @@ class Interp:
                 if p.what == "parents":
                     # there is an ancestor (a top-level name has none) for which the part's condition holds
                     var = "anc:" + p.sym
-                    if not any(mentions(a, var) for a in atoms_of(g)):
+                    if not any(mentions(a, var) and a[:1] not in "∃∀" for a in atoms_of(g)):
                         g = conj([g, atom(f"ANC[{var}]")])
                     g = self.exists(g, var)
                 if p.loop is None or not (p.loop.active and any(l is p.loop for l in self.loops)):
@@ -1806,8 +1924,21 @@ class Interp:
 
     def bf(self, fr: Frame, e: ast.expr) -> Formula:
         if isinstance(e, ast.BoolOp):
-            parts = [self.bf(fr, v) for v in e.values]
-            return conj(parts) if isinstance(e.op, ast.And) else disj(parts)
+            # left to right; an operand is evaluated under what the earlier ones leave open, and not at all once they decide
+            is_and = isinstance(e.op, ast.And)
+            parts: list[Formula] = []
+            pushed = 0
+            try:
+                for v in e.values:
+                    f = self.bf(fr, v)
+                    parts.append(f)
+                    if f == (FALSE if is_and else TRUE):
+                        break
+                    self.frames.append(f if is_and else f_not(f))
+                    pushed += 1
+            finally:
+                del self.frames[len(self.frames) - pushed:]
+            return conj(parts) if is_and else disj(parts)
         if isinstance(e, ast.UnaryOp) and isinstance(e.op, ast.Not):
             return f_not(self.bf(fr, e.operand))
         if isinstance(e, ast.Compare):
@@ -1840,6 +1971,13 @@ class Interp:
         return t
 
     def compare1(self, fr: Frame, le: ast.expr, lv: V, op: ast.cmpop, re_: ast.expr, rv: V) -> Formula:
+        cl, cr = conc(lv), conc(rv)
+        if cl is not _NOCONC and cr is not _NOCONC and not isinstance(op, (ast.Is, ast.IsNot)):
+            try:
+                res = {ast.Eq: lambda: cl == cr, ast.NotEq: lambda: cl != cr, ast.Lt: lambda: cl < cr, ast.LtE: lambda: cl <= cr, ast.Gt: lambda: cl > cr, ast.GtE: lambda: cl >= cr, ast.In: lambda: cl in cr, ast.NotIn: lambda: cl not in cr}[type(op)]()
+                return TRUE if res else FALSE
+            except Exception:  # noqa: BLE001
+                pass
         if isinstance(lv, AltV):
             return disj(conj([g, self.compare1(fr, le, x, op, re_, rv)]) for g, x in self.live(lv))
         if isinstance(rv, AltV) and not isinstance(op, (ast.In, ast.NotIn)):
@@ -1909,7 +2047,21 @@ class Interp:
             return self.ev_call(fr, e)
         if isinstance(e, ast.BoolOp):
             # `a or b` / `a and b` used for its value: a tracked collection / the pattern tuple wins, otherwise it is a truth value
-            vals = [self.ev(fr, v) for v in e.values]
+            is_and = isinstance(e.op, ast.And)
+            vals = []
+            pushed = 0
+            try:
+                for x in e.values:
+                    v = self.ev(fr, x)
+                    vals.append(v)
+                    f = self.truth(v) if not isinstance(v, Coll) else None
+                    if f is not None and f == (FALSE if is_and else TRUE):
+                        break  # decided: the remaining operands are not evaluated
+                    if f is not None:
+                        self.frames.append(f if is_and else f_not(f))
+                        pushed += 1
+            finally:
+                del self.frames[len(self.frames) - pushed:]
             for v in vals:
                 if isinstance(v, Coll):
                     return v
@@ -1922,6 +2074,8 @@ class Interp:
             if isinstance(e.op, ast.Not):
                 return BoolV(self.bf(fr, e))
             v = self.ev(fr, e.operand)
+            if isinstance(v, Const) and isinstance(v.value, (int, float)) and not isinstance(v.value, bool):
+                return Const(-v.value if isinstance(e.op, ast.USub) else (+v.value if isinstance(e.op, ast.UAdd) else ~v.value))
             return Unknown(f"{type(e.op).__name__}({key(v)})", taint_of(v), False)
         if isinstance(e, ast.Compare):
             return BoolV(self.bf(fr, e))
@@ -1989,6 +2143,8 @@ class Interp:
                     ks.append("{" + key(x) + "}")
                 elif isinstance(v, ast.Constant):
                     ks.append(str(v.value))
+            if all(isinstance(v, ast.Constant) or (isinstance(v, ast.FormattedValue) and v.conversion == -1 and v.format_spec is None and isinstance(conc(self.ev(fr, v.value)), str)) for v in e.values):
+                return Const("".join(str(v.value) if isinstance(v, ast.Constant) else conc(self.ev(fr, v.value)) for v in e.values))
             return Unknown("f'" + "".join(ks) + "'", t, False)
         if isinstance(e, ast.BinOp):
             a, b = self.ev(fr, e.left), self.ev(fr, e.right)
@@ -1997,10 +2153,40 @@ class Interp:
                     return self.set_algebra(fr, a, b, e.op, e)
             if isinstance(a, TupleV) and isinstance(b, TupleV) and isinstance(e.op, ast.Add):
                 return TupleV(a.items + b.items)
+            ca, cb = conc(a), conc(b)
+            if ca is not _NOCONC and cb is not _NOCONC and ca is not None and cb is not None:
+                try:
+                    if isinstance(e.op, ast.Add):
+                        return absv(ca + cb)
+                    if isinstance(e.op, ast.Sub):
+                        return absv(ca - cb)
+                    if isinstance(e.op, ast.Mult):
+                        return absv(ca * cb)
+                    if isinstance(e.op, ast.FloorDiv):
+                        return absv(ca // cb)
+                    if isinstance(e.op, ast.Mod) and isinstance(ca, int):
+                        return absv(ca % cb)
+                except Exception:  # noqa: BLE001
+                    pass
             pat = isinstance(e.op, ast.Add) and any(isinstance(x, Unknown) and x.patterns for x in (a, b))
             return Unknown(f"({key(a)} {type(e.op).__name__} {key(b)})", taint_of(a) | taint_of(b), False, patterns=pat)
         if isinstance(e, ast.Subscript):
             v = self.ev(fr, e.value)
+            cv = conc(v)
+            if cv is not _NOCONC and isinstance(cv, (str, tuple)):
+                try:
+                    if isinstance(e.slice, ast.Slice):
+                        bounds = [None if b is None else conc(self.ev(fr, b)) for b in (e.slice.lower, e.slice.upper, e.slice.step)]
+                        if all(b is not _NOCONC for b in bounds):
+                            if (isinstance(cv, str) and "." in cv) or (isinstance(cv, tuple) and cv and all(isinstance(x, str) for x in cv)):
+                                self.cuts.append((fr.fi, norm(e, 60), e))
+                            return absv(cv[slice(*bounds)])
+                    else:
+                        ci = conc(self.ev(fr, e.slice))
+                        if ci is not _NOCONC and isinstance(ci, int):
+                            return absv(cv[ci])
+                except Exception:  # noqa: BLE001 - index out of range: the path raises
+                    return Unknown(f"{key(v)}[..]", frozenset({"GAP"}))
             if isinstance(v, TupleV) and isinstance(e.slice, ast.Constant) and isinstance(e.slice.value, int) and -len(v.items) <= e.slice.value < len(v.items):
                 return v.items[e.slice.value]
             if isinstance(v, Coll) and v.keyed and not isinstance(e.slice, ast.Slice):
@@ -2328,7 +2514,10 @@ class Interp:
             subject = args[0] if args else next(iter(kwargs.values()), Unknown("?"))
             return BoolV(self.int_atom(subject))
         if fi.name == "get_parent_modules" and fi.cls is None and (args or kwargs):
-            return self.parents_of(fr, args[0] if args else next(iter(kwargs.values())), e)
+            a0 = args[0] if args else next(iter(kwargs.values()))
+            if isinstance(a0, Const) and isinstance(a0.value, str):
+                return TupleV([Const(n) for n in dotted_ancestors(a0.value)])
+            return self.parents_of(fr, a0, e)
         if not self.transparent_func(fi):
             return Unknown(f"{fi.name}({','.join(key(a) for a in args)})", self._taints(args, kwargs) | (taint_of(f.selfv) if f.selfv is not None else frozenset()) | {"GAP"})
         res = self.call_function(fi, args, kwargs, f.selfv, f.closure, e, fr)
@@ -2436,6 +2625,16 @@ class Interp:
             return self.builtin_filter(fr, args[0], args[1], e, keep=True)
         if name in ("itertools.filterfalse", "filterfalse") and len(args) == 2:
             return self.builtin_filter(fr, args[0], args[1], e, keep=False)
+        if name in ("len", "str", "int", "tuple", "list", "reversed", "sorted", "range", "min", "max", "sum", "abs") and args and not kwargs:
+            cargs = [conc(a) for a in args]
+            if all(a is not _NOCONC for a in cargs) and not (name in ("tuple", "list", "sorted", "reversed", "len") and not isinstance(cargs[0], (str, tuple))):
+                try:
+                    fn = {"len": len, "str": str, "int": int, "tuple": tuple, "list": tuple, "reversed": lambda x: tuple(reversed(x)), "sorted": lambda x: tuple(sorted(x)), "range": lambda *a: tuple(range(*a)), "min": min, "max": max, "sum": sum, "abs": abs}[name]
+                    out = fn(*cargs)
+                    if not (isinstance(out, tuple) and len(out) > 64):
+                        return absv(out)
+                except Exception:  # noqa: BLE001
+                    pass
         if name == "bool" and len(args) == 1:
             return BoolV(self.truth(args[0]))
         if name in ("dataclasses.replace", "replace") and len(args) == 1 and isinstance(args[0], Obj):
@@ -2575,28 +2774,50 @@ class Interp:
         return acc
 
     def builtin_filter(self, fr: Frame, pred: V, src: V, e: ast.Call, keep: bool) -> V:
-        c = self.as_coll(src)
-        sym = f"x{len(self.loops)}"
-        lp = Loop(sym, c.snapshot(), e, fr.fi)
-        el = Elem(sym, lp)
-        saved = self.loops
-        self.loops = [*self.loops, lp]
-        try:
-            if isinstance(pred, NoneV):
-                f = self.truth(el)
-            else:
-                f = self.truth(self.call_value(fr, pred, [el], {}, e))
-            out = Coll()
-            out.parts.append(Part("filter", conj([self.guard(), f if keep else f_not(f)]), src=lp.src, sym=sym, fi=fr.fi, node=e))
-        finally:
-            lp.active = False
-            self.loops = saved
+        """filter(pred, xs) / filterfalse: like `[x for x in xs if pred(x)]` (generic element, unrolled per-element values)."""
+        out = Coll()
+        for value, g, lp, _ckey in self.iteration_plan(fr, src, e):
+            self.frames.append(g)
+            saved = self.loops
+            self.loops = [*self.loops, lp if lp is not None else Loop(f"u{len(self.loops)}", Coll(), e, fr.fi)]
+            pushed = 1
+            try:
+                el = self.loop_value(fr, value, lp, e)
+                self.frames.append(self.take_run_conds())
+                pushed += 1
+                f = self.truth(el) if isinstance(pred, NoneV) else self.truth(self.call_value(fr, pred, [el], {}, e))
+                self.frames.append(f if keep else f_not(f))
+                pushed += 1
+                self.coll_add(fr, out, el, e)
+            finally:
+                self.loops[-1].active = False
+                self.loops = saved
+                del self.frames[len(self.frames) - pushed:]
         return out
 
     STR_PRESERVING = {"rstrip", "lstrip", "strip", "lower", "upper", "replace", "removeprefix", "removesuffix", "format", "join", "split", "rsplit", "partition", "rpartition", "splitlines", "title", "casefold", "encode", "as_posix", "with_suffix", "relative_to", "resolve", "count", "find", "rfind", "index", "rindex"}
 
     def call_method(self, fr: Frame, recv: V, attr: str, args: list, kwargs: dict, e: ast.Call) -> V:
         t = self._taints(args, kwargs) | taint_of(recv)
+        if isinstance(recv, ConcImport):
+            if attr == "importee" and not args:
+                return Const(recv.name)
+            if attr == "importee_parent_modules" and not args:
+                return TupleV([Const(n) for n in dotted_ancestors(recv.name)])
+            if attr == "importer" and not args:
+                return Const("zz.importer")
+            if attr == "importer_parent_modules" and not args:
+                return TupleV([Const("zz")])
+            return Unknown(f"{key(recv)}.{attr}(..)", t | {"GAP"})
+        if isinstance(recv, Const) and isinstance(recv.value, str) and attr in CONCRETE_STR_METHODS and not kwargs:
+            cargs = [conc(a) for a in args]
+            if all(a is not _NOCONC for a in cargs):
+                if attr in CUT_METHODS and "." in recv.value:
+                    self.cuts.append((fr.fi, norm(e, 60), e))
+                try:
+                    return absv(getattr(recv.value, attr)(*[list(a) if isinstance(a, tuple) and attr == "join" else a for a in cargs]))
+                except Exception:  # noqa: BLE001 - e.g. index() of a missing separator: the path raises
+                    return Unknown(f"{recv.value!r}.{attr}(..)", frozenset({"GAP"}))
         # ---- elements of the pipeline: the public Import API
         if isinstance(recv, Elem):
             if attr == "importee" and not args:
